@@ -18,8 +18,9 @@ def prop(pid, level, explanation, assumptions=(), trusted_base=(), **kw):
 
 prop("C01", "other",
      "Contracts on dns.name (_validate_labels, Name.__init__, from_wire_parser, ...) and dns.wirebase.Parser are "
-     "discharged for all inputs by pyvc from the current source; clauses not (yet) proved are listed under not_proved and "
-     "covered by the bounded stand-in (exhaustive small scope + seeded), which is labelled bounded.",
+     "discharged for all inputs by pyvc from the current source (class invariant of Name, wire decoder bounds/termination/"
+     "strictly-earlier pointers, uncompressed and compressed encoders' discipline, label text and the per-octet step lemmas of "
+     "from_text); clauses not proved are covered by the bounded stand-in (exhaustive small scope + seeded), labelled bounded.",
      assumptions=["A-fold: a for loop over a++b is the loop over a then over b", "A-ext: IDNA codecs are external"])
 
 TECHNIQUE = {}
@@ -38,7 +39,9 @@ prop("C03", "other", _GENERIC + "Proved: rcode/opcode flag codecs and their roun
      "tier). Whole-message render/parse composition is bounded.")
 prop("C04", "other", _GENERIC + "Proved: exception sets and termination of the wire parser kernel (Parser.*, name.from_wire_parser, "
      "_validate_labels, Name.__init__). Text side and per-type bodies are bounded.")
-prop("C05", "other", _GENERIC + "No text-codec contract is discharged yet; the property is decided by the bounded stand-in only.", needs_obligations=False)
+prop("C05", "other", _GENERIC + "Proved: the text of a character-string (dns.rdata._escapify) and of a label (dns.name._escapify) is the "
+     "concatenation of the specified escape of each octet, and the per-octet step lemmas over the body of name.from_text's loop "
+     "(each escape form is read back as exactly that octet). Per-type text composition and the tokenizer are bounded.")
 prop("C06", "proof", "Name.fullcompare is proved totally correct against the RFC 4034 6.1 order (pyvc, all inputs); antisymmetry, "
      "reflexivity, transitivity, equality-iff-case-insensitive-labels and agreement with the subdomain predicates are Level-2 lemmas "
      "over that contract; relativize/derelativize/parent/split/concatenate have label-exact contracts. Successor/predecessor and the "
@@ -70,6 +73,9 @@ prop("C16", "other", _GENERIC + "Proved: the lifetime budget (_compute_timeout) 
      assumptions=["A-float: clock readings and timeouts are reals"])
 prop("C17", "other", _GENERIC + "Discharged: the mechanical lock-discipline obligations of the cache classes (linearizability by one "
      "lock hold per public method). Freshness, LRU order and counters are bounded.")
-prop("C18", "other", _GENERIC + "No contract discharged yet; decided by the bounded stand-in (scripted sockets).", needs_obligations=False)
+prop("C18", "other", _GENERIC + "Proved: stream framing loops _net_read, _net_write and the async _read_exactly against an assumed "
+     "socket contract (any fragmentation into chunks and would-block events yields exactly the requested octets in order, or "
+     "EOFError/Timeout, never a short result). is_response, source matching and the receive loops are bounded.",
+     assumptions=["A-ext: socket.recv/send and the async backend recv behave as their stated contracts"])
 prop("C19", "other", _GENERIC + "Proved: _Node.search_in_node (binary search, termination). Tree restructuring and copy-on-write are bounded.")
 prop("C20", "other", _GENERIC + "No contract discharged yet; decided by the bounded stand-in.", needs_obligations=False)
